@@ -96,6 +96,14 @@ func c15Config(rt *rapid.T, url string) map[string]any {
 		map[string]any{"name": "tx_to", "column": "tx_to"},
 		map[string]any{"name": "block_time", "column": "block_time"},
 	}
+	if rapid.Bool().Draw(rt, "requiredfields") {
+		// fields shovel would add by itself, listed by the user (under the standard column names)
+		for _, f := range []string{"block_num", "ig_name", "log_idx"} {
+			if rapid.Bool().Draw(rt, "req:"+f) {
+				block = append(block, map[string]any{"name": f, "column": f})
+			}
+		}
+	}
 	if rapid.Bool().Draw(rt, "blockref") {
 		block[1].(map[string]any)["filter_op"] = "contains"
 		block[1].(map[string]any)["filter_ref"] = map[string]any{"integration": "refig", "column": "addr"}
@@ -346,6 +354,21 @@ func TestC15_FileConfig(t *testing.T) {
 		}
 		positions := stringPositions(base)
 		hostile := c15Hostile[rapid.IntRange(0, len(c15Hostile)-1).Draw(rt, "hostile")]
+		{
+			// a file that declares only sources (its integrations are stored through the dashboard):
+			// the source name still ends up in SQL text (application name, notification channel)
+			tree := deepCopy(base)
+			tree["integrations"] = []any{}
+			tree["eth_sources"].([]any)[0].(map[string]any)["name"] = hostile
+			b, _ := json.Marshal(tree)
+			var conf config.Root
+			if err := json.Unmarshal(b, &conf); err == nil {
+				ev.Case(true, "sources-only "+hostile, "listed=true")
+				if err := config.ValidateFix(&conf); err == nil {
+					rt.Fatalf("VERIF-VIOLATION property=C15 validation accepted %q as a source name in a file without integrations, a position that is spliced into SQL text", hostile)
+				}
+			}
+		}
 		for pi := range positions {
 			tree := deepCopy(base)
 			ps := stringPositions(tree)
